@@ -5,6 +5,7 @@ package vsync
 
 import (
 	"sync"
+	"time"
 
 	"github.com/tokenized/spynode/pkg/vrt"
 )
@@ -49,9 +50,31 @@ type Mutex struct {
 
 func (m *Mutex) free() bool { return !m.held }
 
+// passLock acquires a real lock in pass-through mode (no scheduler; the sequential component
+// checks). Nothing legitimately holds a lock for seconds there, so a lock that stays taken is a
+// leaked lock: fail loudly instead of hanging until the worker's time-out.
+var leakSeen bool
+
+func passLock(try func() bool) {
+	if try() {
+		return
+	}
+	if leakSeen {
+		panic("vsync: lock still not released (leaked lock reported before)")
+	}
+	deadline := time.Now().Add(5 * time.Second)
+	for !try() {
+		if time.Now().After(deadline) {
+			leakSeen = true // later attempts fail at once instead of waiting 5 s each
+			panic("vsync: lock not released within 5 s without a scheduler (leaked lock?)")
+		}
+		time.Sleep(time.Millisecond)
+	}
+}
+
 func (m *Mutex) Lock() {
 	if vrt.S == nil {
-		m.real.Lock()
+		passLock(m.real.TryLock)
 		return
 	}
 	if vrt.Killed() && m.held {
@@ -97,7 +120,7 @@ type RWMutex struct {
 
 func (m *RWMutex) Lock() {
 	if vrt.S == nil {
-		m.real.Lock()
+		passLock(m.real.TryLock)
 		return
 	}
 	vrt.Point(&vrt.Op{Kind: "wlock", Enabled: func() bool { return !m.w && m.readers == 0 }})
@@ -114,7 +137,7 @@ func (m *RWMutex) Unlock() {
 
 func (m *RWMutex) RLock() {
 	if vrt.S == nil {
-		m.real.RLock()
+		passLock(m.real.TryRLock)
 		return
 	}
 	vrt.Point(&vrt.Op{Kind: "rlock", Enabled: func() bool { return !m.w }})
